@@ -584,9 +584,21 @@ impl TypedGen<'_> {
         let mut defs: Vec<(String, String)> = vec![]; // (name : type, definition)
         for (name, t, recursive) in &funs {
             let Ty::Fun(a, b) = t else { unreachable!() };
+            // other functions of the group a body may call: non-recursive ones earlier in the list (acyclic, so everything
+            // terminates); they may well be DEFINED later in the group's text (values are available to the whole group)
+            let mut callable: Vec<Var> = vec![];
+            for (g, gt, grec) in &funs {
+                if g == name {
+                    break;
+                }
+                if !*grec {
+                    callable.push(Var { name: g.clone(), ty: gt.clone(), rec_arg: None });
+                }
+            }
             let text = if *recursive {
                 let nvar = self.fresh("n");
                 let mut base_env = env.to_vec();
+                base_env.extend(callable.iter().cloned());
                 base_env.push(Var { name: nvar.clone(), ty: Ty::Int, rec_arg: None });
                 let base = self.expr(&base_env, b, d.min(1));
                 let mut rec_env = base_env.clone();
@@ -602,6 +614,7 @@ impl TypedGen<'_> {
             } else {
                 let x = self.fresh("p");
                 let mut e2 = env.to_vec();
+                e2.extend(callable.iter().cloned());
                 e2.push(Var { name: x.clone(), ty: (**a).clone(), rec_arg: None });
                 format!("(({x} : {}) => {})", a.show(), self.expr(&e2, b, d))
             };
@@ -630,7 +643,10 @@ impl TypedGen<'_> {
         }
         // order: interleave functions and values at random while keeping the values' relative order
         let nf = funs.len();
-        let (fdefs, vdefs) = defs.split_at(nf);
+        let (fdefs0, vdefs) = defs.split_at(nf);
+        let mut fdefs: Vec<(String, String)> = fdefs0.to_vec();
+        fdefs.shuffle(self.r);
+        let fdefs = &fdefs[..];
         let mut order: Vec<(String, String)> = vec![];
         let (mut i, mut j) = (0, 0);
         while i < fdefs.len() || j < vdefs.len() {
@@ -741,6 +757,35 @@ fn raise_in_group(d: &Value) -> Value {
     json!({"n": "?", "ann": d["ann"], "def": tj::tj_with(&up, &mut tj::HoleIds::default(), false)})
 }
 
+// replace every free occurrence of index `from` by index `to` (both counted at the root)
+fn swap_var(v: &Value, from: u64, to: u64) -> Value {
+    fn go(v: &Value, c: u64, from: u64, to: u64) -> Value {
+        match v["k"].as_str().unwrap_or("") {
+            "var" => {
+                if v["i"].as_u64().unwrap() == from + c { json!({"k": "var", "i": to + c, "n": "?"}) } else { v.clone() }
+            }
+            "lam" | "pi" => {
+                let mut o = v.clone();
+                o["a"] = go(&v["a"], c, from, to);
+                o["b"] = go(&v["b"], c + 1, from, to);
+                o
+            }
+            "let" => {
+                let n = v["defs"].as_array().unwrap().len() as u64;
+                let mut o = v.clone();
+                o["defs"] = Value::Array(v["defs"].as_array().unwrap().iter().map(|d| json!({"n": d["n"], "ann": go(&d["ann"], c + n, from, to), "def": go(&d["def"], c + n, from, to)})).collect());
+                o["b"] = go(&v["b"], c + n, from, to);
+                o
+            }
+            _ => match v {
+                Value::Object(m) => Value::Object(m.iter().map(|(k, x)| (k.clone(), if x.is_object() { go(x, c, from, to) } else { x.clone() })).collect()),
+                x => x.clone(),
+            },
+        }
+    }
+    go(v, 0, from, to)
+}
+
 pub fn dependent_program(r: &mut StdRng) -> String {
     // context (outermost first): p : int -> type, g : int -> int, b : bool, n : int, m : int  => indices p=4 g=3 b=2 n=1 m=0
     let dep = r.gen_range(1..4);
@@ -750,6 +795,13 @@ pub fn dependent_program(r: &mut StdRng) -> String {
     let mut u = c_pipe::Unparser::new(pool);
     let mut env = vec!["p".to_string(), "g".to_string(), "b".to_string(), "n".to_string(), "m".to_string()];
     let (s1, s2) = (u.go(&e1, &mut env), u.go(&e2, &mut env));
+    if r.gen_bool(0.25) {
+        // the two indices differ only in that one uses `k`, a definition of the context equal to `n`: convertible, must be accepted
+        let e1k = swap_var(&raise(&e1), 2, 0);
+        let mut env2 = vec!["p".to_string(), "g".to_string(), "b".to_string(), "n".to_string(), "m".to_string(), "k".to_string()];
+        let (t1, t2) = (u.go(&raise(&e1), &mut env2), u.go(&e1k, &mut env2));
+        return format!("(p : int -> type) => (g : int -> int) => (b : bool) => (n : int) => (m : int) => (k : int = n; (f : p ({t1}) -> int) => (x : p ({t2})) => f x)");
+    }
     match r.gen_range(0..3) {
         0 => format!("(p : int -> type) => (g : int -> int) => (b : bool) => (n : int) => (m : int) => (f : p ({s1}) -> int) => (x : p ({s2})) => f x"),
         1 => format!("(p : int -> type) => (g : int -> int) => (b : bool) => (n : int) => (m : int) => (x : p ({s2})) => (y : p ({s1}) = x; y)"),
